@@ -52,7 +52,7 @@ Definition expand (body pc : nat) (i : instr) : list micro :=
   | IBlockOnS a v b1 b2 => [MBlockOnS a v b1 b2]
   | IWakeMine => [MWakeMine]
   | ITlsWith k => [MTlsWith k]
-  | ILazyGet k => [MLazyGet k]
+  | ILazyGet k => if Nat.eqb k 2 then [MLazyGetY k] else [MLazyGet k]
   | IPanic => [MPanic]
   | IExplore => [MExplore]
   | IStopExploring => [MStop]
